@@ -220,6 +220,16 @@ pub fn gen_issuer_history(r: &mut Rng, tier: Tier) -> IssuerHistory {
                 a.strategy = if r.chance(1, 2) { prev.args.strategy.clone() } else { gen_strategy(r, &a.claims, false) };
             }
         }
+        // a credential with nothing to disclose (only the always-visible claims) now and then: whatever the instance keeps
+        // from the previous call has nothing to be replaced by
+        if r.chance(1, 8) {
+            a.claims = match r.below(3) {
+                0 => json!({"iss": "https://issuer.example", "exp": now() + 100000}),
+                1 => json!({"iss": "https://issuer.example", "iat": now() - 5, "exp": now() + 100000}),
+                _ => json!({"exp": now() + 100000, "iss": "https://issuer.example", "empty": {}}),
+            };
+            a.strategy = if r.chance(1, 2) { Strategy::All } else { Strategy::Top };
+        }
         let mut class = "ok";
         match r.below(10) {
             0 => {
@@ -285,11 +295,19 @@ pub fn gen_holder_history(r: &mut Rng, tier: Tier) -> HolderHistory {
     let cfg = tree_cfg(tier);
     let mut issue = gen_flow(r, &cfg).issue;
     issue.holder = gen_holder_key(r);
+    // now and then a credential with very many disclosures (limits on counts), presented in full first
+    let wide = r.chance(1, 30);
+    if wide {
+        let n = r.range(135, 220);
+        issue.claims = gen_wide_claims(r, n, now());
+        issue.strategy = Strategy::All;
+        issue.decoy = false;
+    }
     let claims = issue.claims.clone();
-    let n = r.range(1, 8);
+    let n = if wide { r.range(3, 5) } else { r.range(1, 8) };
     let mut calls = vec![];
-    for _ in 0..n {
-        let sel = match r.below(6) {
+    for ci in 0..n {
+        let sel = match if wide && ci == 0 { 0 } else { r.below(6) } {
             0 => select_all(&claims),
             1 => json!({}),
             _ => {
